@@ -41,6 +41,8 @@ def solve(constraints, timeout_ms=20000, want_model=True, strings=False, seed=0)
             r2, out = run_cvc5(smt, timeout_ms, True)
             if r2 == "unsat": return "unsat", None, time.time() - t0, "cvc5"
             if r2 == "sat":
+                m = model_from_cvc5(smt, out) if want_model else None
+                if m is not None: return "sat", m, time.time() - t0, "cvc5(model checked by z3)"
                 s.set("timeout", timeout_ms)
                 if s.check() == z3.sat: return "sat", (s.model() if want_model else None), time.time() - t0, "cvc5+z3"
                 return "sat", None, time.time() - t0, "cvc5"
@@ -55,7 +57,9 @@ def solve(constraints, timeout_ms=20000, want_model=True, strings=False, seed=0)
             r2, out = run_cvc5(smt, timeout_ms, True)
             dt = time.time() - t0
             if r2 == "unsat": return "unsat", None, dt, "cvc5"
-            if r2 == "sat": return "sat", None, dt, "cvc5"
+            if r2 == "sat":
+                m = model_from_cvc5(smt, out) if want_model else None
+                return "sat", m, time.time() - t0, "cvc5" + ("(model checked by z3)" if m is not None else "")
         except Exception: pass
     return "unknown", None, time.time() - t0, "z3+cvc5"
 
@@ -64,15 +68,37 @@ def run_cvc5(smt2, timeout_ms, strings=False):
     with tempfile.NamedTemporaryFile("w", suffix=".smt2", delete=False, dir=os.environ.get("TMPDIR", "/tmp")) as f:
         txt = smt2
         if "(set-logic" not in txt: txt = "(set-logic ALL)\n" + txt
+        if "(get-model)" not in txt: txt += "\n(get-model)\n"
         f.write(txt); path = f.name
     try:
-        cmd = [CVC5, f"--tlimit={timeout_ms}", "--strings-exp"]
+        cmd = [CVC5, f"--tlimit={timeout_ms}", "--strings-exp", "--produce-models"]
         p = subprocess.run(cmd + [path], capture_output=True, text=True, timeout=timeout_ms / 1000 + 10)
         out = p.stdout.strip().splitlines()
         res = out[0].strip() if out else "unknown"
         return (res if res in ("sat", "unsat") else "unknown"), p.stdout + p.stderr
     finally:
         os.unlink(path)
+
+
+_DEF = __import__("re").compile(r"^\(define-fun (\|[^|]*\||\S+) \(\) (Int|Real|Bool|String) (.*)\)\s*$")
+
+
+def model_from_cvc5(smt2, cvc5_out, timeout_ms=10000):
+    """cvc5 answered sat: read the constants of its model, pin them in the ORIGINAL query and let z3 evaluate it; the z3 model is
+    returned only if z3 confirms that the pinned query is satisfiable (so a counterexample is never taken on cvc5's word alone)"""
+    pins = []
+    for ln in cvc5_out.splitlines():
+        m = _DEF.match(ln.strip())
+        if m: pins.append(f"(assert (= {m.group(1)} {m.group(3)}))")
+    if not pins: return None
+    try:
+        body = smt2.replace("(check-sat)", "")
+        fs = z3.parse_smt2_string(body + "\n" + "\n".join(pins))
+        s = z3.Solver(); s.set("timeout", timeout_ms); s.add(*fs)
+        if s.check() == z3.sat: return s.model()
+    except Exception:
+        return None
+    return None
 
 
 # ---------------------------------------------------------------------------------------------- concretisation
@@ -87,6 +113,12 @@ def c_real(model, t):
         a = v.approx(30); return Fraction(a.numerator_as_long(), a.denominator_as_long())
     if z3.is_int_value(v): return Fraction(v.as_long())
     raise ValueError(f"non-numeric model value {v}")
+
+
+def zstr_py(txt):
+    """z3 prints non-printable code units of a string value as \\u{hex}: back to the python string"""
+    import re
+    return re.sub(r"\\u\{([0-9a-fA-F]+)\}", lambda m: chr(int(m.group(1), 16)), txt)
 
 
 def c_bool(model, t):
@@ -115,7 +147,7 @@ def concretize(model, v, heap=None, world=None, enum_lookup=None):
     if isinstance(v, VStr):
         if v.py is not None: return v.py
         s = mval(model, v.term)
-        return s.as_string() if z3.is_string_value(s) else str(s)
+        return zstr_py(s.as_string()) if z3.is_string_value(s) else str(s)
     if isinstance(v, VPoint):
         from gscrib.geometry.point import Point
         return Point(*[concretize(model, c, heap, world, enum_lookup) for c in v.items()])
